@@ -18,7 +18,7 @@ rows=['| seeded change | needs to manifest | caught by (and why it was missed at
 n=0; missed=0
 for f in sorted(glob.glob(f'{V}/seeded/*/meta.json')):
     m=json.load(open(f)); n+=1
-    if 'missed' in m['detected_by']: missed+=1
+    if 'missed' in m['detected_by'] or 'added for this seed' in m['detected_by']: missed+=1
     r=res.get(m['id'],('',' ',''))
     rows.append(f"| {m['id']} | {m['needs_to_manifest']} | {m['detected_by']} | {r[0]} / {r[1]} |")
 seeds='\n'.join(rows)+f'\n\n{n} seeded changes kept; {missed} of them were missed by the check as it stood when the change arrived.'
